@@ -28,3 +28,21 @@ func DialTimeout(network, addr string, timeout time.Duration) (net.Conn, error) 
 	}
 	return net.DialTimeout(network, addr, timeout)
 }
+
+// Dialer stands in for net.Dialer in rewritten files (transport/transport.go)
+// so that a harness can read the timeouts a built transport actually carries:
+// calling the transport's Dial with network "verif-probe" records the dialer.
+type Dialer struct {
+	Timeout   time.Duration
+	KeepAlive time.Duration
+}
+
+var Probed *Dialer
+
+func (d *Dialer) Dial(network, address string) (net.Conn, error) {
+	if network == "verif-probe" {
+		Probed = d
+		return nil, &net.OpError{Op: "dial", Net: network}
+	}
+	return (&net.Dialer{Timeout: d.Timeout, KeepAlive: d.KeepAlive}).Dial(network, address)
+}
